@@ -11,3 +11,7 @@ import Dsi.Props.C13
 import Dsi.Props.C14
 import Dsi.Props.C17
 import Dsi.Props.C19
+import Dsi.Props.Copy
+import Dsi.Props.IOView
+import Dsi.Props.C10
+import Dsi.Props.C16
